@@ -309,7 +309,7 @@ func checkC16(c *Ctx) {
 				switch {
 				case !okd:
 					bad("changeNewlineToBr changes nothing but line breaks in the escaped text", "br-raw", "br", 0, "escaped text with <br> for line breaks", out)
-				case strings.ContainsRune(s, 0) || !valid:
+				case strings.ContainsRune(s, 0) || (!valid && be != "go"):
 				case dec != want:
 					bad("changeNewlineToBr changes nothing but line breaks in the escaped text", "br-text", "br", 0, want, fmt.Sprintf("%q decodes to %q", out, dec))
 				case strings.Count(out, "<br>") != nl:
@@ -331,8 +331,9 @@ func checkC16(c *Ctx) {
 				switch {
 				case !okd:
 					bad("insertWordBreaks changes nothing but break opportunities in the escaped text", "wbr-raw", "wbr", n, "escaped text with <wbr>", out)
-				case strings.ContainsRune(s, 0) || !valid:
+				case strings.ContainsRune(s, 0) || (!valid && be != "go"):
 				case dec != s:
+					// (also for strings that are not valid UTF-8: the directive passes bytes through)
 					bad("insertWordBreaks changes nothing but break opportunities in the escaped text", "wbr-text", "wbr", n, s, fmt.Sprintf("%q decodes to %q", out, dec))
 				case wbrInsideEntity(out):
 					bad("no <wbr> falls inside a character reference", "wbr-entity", "wbr", n, "breaks between characters", out)
